@@ -119,4 +119,22 @@ SetVerdicts(e) ==
         THEN {} ELSE {"C05.blocks_0_to_n_exactly_once"})
   \cup (IF \A x \in recvs : RecvOK(P(x), e) THEN {} ELSE {"C05.recovery_data"})
   \cup (IF e.inputs_unchanged THEN {} ELSE {"C02.create_modified_input"})
+
+(************************** reference-written layouts (C06, C19) ***********)
+\* A layout written by the harness's reference writer is judged before it is used against gopar:
+\* every file is framed; the packets of the set (set id = md5 of the main body) are correct; the
+\* recovery data is the specified sum.  Packets of other sets / unknown types are only framed.
+RefVerdicts(e) ==
+  LET files == e.files
+      allp  == UNION {{<< k, j >> : j \in 1 .. Len(files[k].packets)} : k \in 1 .. Len(files)}
+      P(x)  == files[x[1]].packets[x[2]]
+      own   == {x \in allp : P(x).setid = e.setid}
+  IN
+  (IF \A k \in 1 .. Len(files) : Framed(files[k]) THEN {} ELSE {"OBS.ref.framing"})
+  \cup (IF SortedByID(e.sorted) THEN {} ELSE {"OBS.ref.sorted_order"})
+  \cup (IF \A x \in own : P(x).type = "main" => MainOK(P(x), e) THEN {} ELSE {"OBS.ref.main_packet"})
+  \cup (IF \A x \in own : P(x).type = "filedesc" => FileDescOK(P(x), e) THEN {} ELSE {"OBS.ref.file_description"})
+  \cup (IF \A x \in own : P(x).type = "ifsc" => IFSCOK(P(x), e) THEN {} ELSE {"OBS.ref.slice_checksums"})
+  \cup (IF \A x \in own : P(x).type = "recv" => RecvOK(P(x), [e EXCEPT !.r = 65536])
+        THEN {} ELSE {"OBS.ref.recovery_data"})
 =============================================================================
